@@ -73,9 +73,26 @@ fn alphabet(iface: &Iface) -> Vec<M> {
         msgs.push((Msg::of(vec![s1.clone(), f.clone(), s2.clone()]), Some(k.clone())));
         msgs.push((Msg::of(vec![s1.clone(), s2.clone(), f.clone()]), Some(k.clone())));
     }
+    // execution-time faults in a unit with a compound header, followed by *relative* units: the
+    // faulty unit still defines the path for the units after it (if they are executed at all)
+    for (f, k) in [
+        (Unit::hdr("A:B").with(&[L1]), FaultKind::Arity),
+        (Unit::hdr("A:S").with(&[L5]), FaultKind::Unconvertible),
+        (Unit::hdr("A:X"), FaultKind::HandlerError),
+        (Unit::hdr("A:F?"), FaultKind::HandlerError),
+        (Unit::hdr(":A:N").with(&[L300, LSAB]), FaultKind::Unconvertible),
+    ] {
+        msgs.push((Msg::of(vec![f.clone(), Unit::hdr("E"), Unit::hdr("A")]), Some(k.clone())));
+        msgs.push((Msg::of(vec![Unit::hdr("E"), f.clone(), Unit::hdr("B")]), Some(k.clone())));
+    }
+    // faulty messages that also carry a string or block with quote characters in it
+    for raw in [&b":Z #13a\"b"[..], &b"@ #11'"[..], &b":ZZ '\"',#12''"[..], &b":A:B! \"'\""[..]] {
+        msgs.push((Msg::of(vec![Unit::raw(raw)]), None));
+    }
     msgs.into_iter()
         .map(|(m, fault)| {
             let eff = msg::msg_effect(iface, &m);
+            let fault = if m.units.iter().any(|u| u.raw.is_some()) && fault.is_none() { Some(FaultKind::Syntax) } else { fault };
             assert_eq!(eff.fault_at.is_some(), fault.is_some(), "alphabet message {:?}", show(&m.bytes()));
             assert!(!eff.post_depends_on_context);
             if let (Some(at), Some(k)) = (eff.fault_at, &fault) {
